@@ -92,13 +92,13 @@ package ro
 //@   onevent destination.CompleteWithContext : requires held(mu) ; requires !term ; sets term = true
 
 //@ func (*subscriberImpl).NextWithContext
-//@   props C01 C02 C06 C08
+//@   props C01 C02 C06 C08 C11
 //@   binds s ctx v
 //@   scope Subscription backpressure ctx destination mode mu s status v
 //@   track destination.* hook.* call.NewNotification* Subscription.* spawn.*
 //@   ensures [nil-destination-silent|C01] s.destination == nil ==> trace()
 //@   ensures [block-mode-waits|C08] s.backpressure != 1 ==> !tried(mu)
-//@   ensures [delivers-iff-open|C01,C06,C08] did_load(status) ==> iff(loaded(status) == 0, trace(destination.NextWithContext(ctx, v)))
+//@   ensures [delivers-iff-open|C01,C06,C08,C11] did_load(status) ==> iff(loaded(status) == 0, trace(destination.NextWithContext(ctx, v)))
 //@   ensures [closed-is-dropped|C01,C06] did_load(status) && loaded(status) != 0 ==> trace(call.NewNotificationNext(v), hook.OnDroppedNotification(ctx, _))
 //@   ensures [contention-is-dropped|C01] tried(mu) && !trylock(mu) ==> trace(call.NewNotificationNext(v), hook.OnDroppedNotification(ctx, _))
 
